@@ -145,9 +145,23 @@ class Acc:
 _MOD = None
 
 
+def _cov_start():
+    """Audit aid (tools/cov.sh), never part of a verdict: VERIF_COV=<data file> records which lines and branches of the
+    implementation the exploration executed, to find case splits no generated input reaches."""
+    if not os.environ.get("VERIF_COV"):
+        return None
+    import coverage
+
+    cov = coverage.Coverage(data_file=os.environ["VERIF_COV"], data_suffix=True, branch=True, config_file=False,
+                            include=[os.path.join(REPO, "jsonpath", "*")])
+    cov.start()
+    return cov
+
+
 def _worker(shard):
     t0 = time.time()
     acc = Acc()
+    cov = _cov_start()
     try:
         try:
             with budget(SHARD_BUDGET_S):
@@ -160,6 +174,10 @@ def _worker(shard):
         minimise_all(_MOD, acc)
     except Exception:  # harness problem, not a verdict
         return dict(error="shard %r: %s" % (shard, traceback.format_exc()))
+    finally:
+        if cov is not None:
+            cov.stop()
+            cov.save()
     out = acc.export()
     out["wall"] = time.time() - t0
     out["shard"] = shard
@@ -519,8 +537,11 @@ def run(prop, tier, seed):
         wall_s=round(wall, 3),
         violations=n_viol,
     )
-    os.makedirs(os.path.join(VERIF, "evidence"), exist_ok=True)
-    with open(os.path.join(VERIF, "evidence", prop + ".json"), "w") as f:
+    # evidence under /verif always describes /repo itself; a run against a scratch tree (VERIF_REPO) writes elsewhere
+    evdir = os.path.join(VERIF, "evidence") if os.path.realpath(REPO) == "/repo" else os.environ.get(
+        "VERIF_EVIDENCE_DIR", "/tmp/verif-scratch-evidence")
+    os.makedirs(evdir, exist_ok=True)
+    with open(os.path.join(evdir, prop + ".json"), "w") as f:
         json.dump(ev, f, indent=1, ensure_ascii=True)
     for ln in lines:
         print(ln)
